@@ -132,6 +132,34 @@ func trimInts(a []int) []int {
 	return a
 }
 
+// pollReceive is Receive written over the public polling API: take the wait channel, poll, and when
+// nothing is queued wait for the notification (a new message or the end of the channel). A
+// notification that never comes while the sender goes on is a delivery failure.
+func (d *delivery) pollReceive(ch mpx.Channel, ctx async.Context, p *chanPlan) ([]byte, status.Status) {
+	for {
+		wait := ch.ReceiveWait()
+		b, ok, st := ch.ReceiveAsync(ctx)
+		if !st.OK() {
+			return nil, st
+		}
+		if ok {
+			d.res.Count("messages_received_by_polling", 1)
+			return b, status.OK
+		}
+		select {
+		case <-wait:
+		case <-ctx.Wait():
+			if st := ctx.Status(); !st.OK() {
+				return nil, st
+			}
+			return nil, status.Cancelled
+		case <-time.After(2 * Watchdog):
+			d.violate("receive-wait-never-notified", fmt.Sprintf("channel %d: ReceiveAsync reported nothing queued and the ReceiveWait channel taken before it was not notified within %v (no message, no end)", p.id, 2*Watchdog), p, nil)
+			return nil, status.Timeout
+		}
+	}
+}
+
 // checkMsg verifies one received message against the plan.
 func (d *delivery) checkMsg(p *chanPlan, dir byte, seq int, sizes []int, b []byte) bool {
 	if seq >= len(sizes) {
@@ -211,7 +239,14 @@ func (d *delivery) side(ctx async.Context, ch mpx.Channel, p *chanPlan, role int
 		if isCloser && got >= len(recvSizes) {
 			break
 		}
-		b, st := ch.Receive(rctx)
+		var b []byte
+		var st status.Status
+		if p.id%4 == 3 {
+			// polling receiver: the public ReceiveWait / ReceiveAsync pair, used as documented
+			b, st = d.pollReceive(ch, rctx, p)
+		} else {
+			b, st = ch.Receive(rctx)
+		}
 		if !st.OK() {
 			if st.Code == status.CodeCancelled && rctx != async.Context(noCtx) {
 				// The handler's context is the channel context: it is cancelled when the peer's
